@@ -3,6 +3,7 @@
 import json, pathlib
 V = pathlib.Path(__file__).resolve().parents[1]
 src = json.loads((V / "tools" / "manifest_src.json").read_text())
+src["properties"] = {f.stem: json.loads(f.read_text()) for f in sorted((V / "tools" / "manifest.d").glob("*.json"))}
 props = [json.loads(l) for l in (V / "properties.jsonl").read_text().splitlines() if l.strip()]
 checks, na = [], []
 for p in props:
